@@ -893,7 +893,7 @@ fn fault_plan(thorough: bool) -> Plan {
     p.level = "fault_enumeration";
     p.budget_s = if thorough { 1700 } else { 55 };
     p.isolate = true;
-    p.case_timeout_s = 20;
+    p.case_timeout_s = 30;
     p.timeout_is_violation = true;
     p.assumptions = vec!["failures are injected at the I/O seam (before the syscall / at I/O-pool submission or completion); read failures are not injected".into()];
     p
